@@ -96,6 +96,12 @@ func buildLayers(r *rand.Rand) layers {
 		for _, k := range []string{"a", "b"} {
 			ps = append(ps, strategy.NewPredicatePartitionWithMetricRegistry(k, 0.25, matchers.StringPredicateMatcher(k, false), core.EmptyMetricRegistryInstance))
 		}
+		// overlapping predicates: a catch-all registered last also matches "a" and "b" requests - the first registered
+		// matching partition alone is charged
+		catchAll := r.IntN(2) == 0
+		if catchAll {
+			ps = append(ps, strategy.NewPredicatePartitionWithMetricRegistry("any", 0.25, func(context.Context) bool { return true }, core.EmptyMetricRegistryInstance))
+		}
 		s, err := strategy.NewPredicatePartitionStrategyWithMetricRegistry(ps, int32(limitV), core.EmptyMetricRegistryInstance)
 		if err != nil {
 			panic(err)
@@ -114,6 +120,11 @@ func buildLayers(r *rand.Rand) layers {
 				}
 				n, _ := s.BinBusyCount(1)
 				return n
+			case "zz":
+				if catchAll && !removedB { // removing what matches "b" takes the catch-all with it
+					n, _ := s.BinBusyCount(2)
+					return n
+				}
 			}
 			return -1
 		}
